@@ -220,6 +220,118 @@ pub fn run(ctx: &Ctx, rep: &mut Report) {
             Err(p) => rep.violation(&format!("C15:{}", p.sig()), &p.0, &case, J::Null),
         }
     });
+    // "compiling equal results gives byte-identical programs": equality is the library's own `==` on the
+    // public types. Pairs (e, e') where e' re-expresses some leaves of e (the same duration or size in
+    // another unit, an equal-valued fresh copy, a neighbouring constant, the other case rule): whenever the
+    // library says e == e', the two programs and tables must be identical.
+    let n_eq = ctx.pick(1500, 300_000);
+    par_cases(ctx, "equal", n_eq, rep, |i, rep| {
+        use lipe_find_parser::ast::{Comparison, Expression, Operator, Size, Test, TimeSpec};
+        let mut r = Rng::for_case(ctx.seed, "equal", i);
+        let case = format!("equal:{}", i);
+        fn reunit_time(ts: &TimeSpec) -> TimeSpec {
+            match ts {
+                TimeSpec::Hour(n) if *n < 1 << 40 => TimeSpec::Minute(n * 60),
+                TimeSpec::Minute(n) if n % 60 == 0 => TimeSpec::Hour(n / 60),
+                TimeSpec::Minute(n) if *n < 1 << 40 => TimeSpec::Second(n * 60),
+                TimeSpec::Day(n) if *n < 1 << 40 => TimeSpec::Hour(n * 24),
+                TimeSpec::Second(n) if n % 60 == 0 => TimeSpec::Minute(n / 60),
+                other => other.clone(),
+            }
+        }
+        fn reunit_size(sz: &Size) -> Size {
+            match sz {
+                Size::KiloByte(n) if *n < 1 << 40 => Size::Byte(n * 1024),
+                Size::MegaByte(n) if *n < 1 << 30 => Size::KiloByte(n * 1024),
+                Size::Block(n) if *n < 1 << 40 => Size::Byte(n * 512),
+                Size::Word(n) if *n < 1 << 40 => Size::Byte(n * 2),
+                Size::Byte(n) if n % 1024 == 0 => Size::KiloByte(n / 1024),
+                Size::GigaByte(n) if *n < 1 << 20 => Size::MegaByte(n * 1024),
+                other => other.clone(),
+            }
+        }
+        fn cmap<T: Clone>(c: &Comparison<T>, f: impl Fn(&T) -> T) -> Comparison<T> {
+            match c {
+                Comparison::Equal(v) => Comparison::Equal(f(v)),
+                Comparison::GreaterThan(v) => Comparison::GreaterThan(f(v)),
+                Comparison::LesserThan(v) => Comparison::LesserThan(f(v)),
+            }
+        }
+        fn vary(e: &Expression, r: &mut Rng) -> Expression {
+            match e {
+                Expression::Operator(op) => Expression::Operator(std::rc::Rc::new(match op.as_ref() {
+                    Operator::Precedence(x) => Operator::Precedence(vary(x, r)),
+                    Operator::Not(x) => Operator::Not(vary(x, r)),
+                    Operator::And(a, b) => Operator::And(vary(a, r), vary(b, r)),
+                    Operator::Or(a, b) => Operator::Or(vary(a, r), vary(b, r)),
+                    Operator::List(a, b) => Operator::List(vary(a, r), vary(b, r)),
+                })),
+                Expression::Test(x) if r.chance(1, 2) => Expression::Test(match x {
+                    Test::AccessTime(c) => Test::AccessTime(cmap(c, reunit_time)),
+                    Test::ChangeTime(c) => Test::ChangeTime(cmap(c, reunit_time)),
+                    Test::ModifyTime(c) => Test::ModifyTime(cmap(c, reunit_time)),
+                    Test::Size(c) => Test::Size(cmap(c, reunit_size)),
+                    _ => return crate::gen::related_leaf(e, r),
+                }),
+                other => {
+                    if r.chance(1, 4) {
+                        crate::gen::related_leaf(other, r)
+                    } else {
+                        other.clone()
+                    }
+                }
+            }
+        }
+        let leaves = 1 + r.usize(5);
+        let e = gen_tree(&mut r, leaves, &mut |r| match r.below(5) {
+            0 => {
+                let v = crate::gen::mk_time(r.below(4), 60 * r.below(50));
+                t(Test::ModifyTime(crate::gen::gen_cmp(r, v)))
+            }
+            1 => {
+                let v = crate::gen::mk_size(r.below(7), 1024 * r.below(9));
+                t(Test::Size(crate::gen::gen_cmp(r, v)))
+            }
+            2 => {
+                let v = crate::gen::mk_time(r.below(4), r.below(200));
+                t(Test::AccessTime(crate::gen::gen_cmp(r, v)))
+            }
+            _ => gen_leaf(r, 30),
+        });
+        let e2 = vary(&e, &mut r);
+        rep.evaluations += 1;
+        let same = match crate::sut::guard(|| e == e2) {
+            Ok(b) => b,
+            Err(p) => {
+                rep.violation(&format!("C15:{}", p.sig()), &format!("comparing two trees with == panicked: {}", p.0), &case, J::Null);
+                return;
+            }
+        };
+        if !same {
+            rep.count("pairs_not_equal");
+            return;
+        }
+        let opts = crate::sut::opts_for(i);
+        let (a, b) = match (compile_g(&e, &opts, "/d"), compile_g(&e2, &opts, "/d")) {
+            (Ok(a), Ok(b)) => (a, b),
+            _ => return, // C03's subject
+        };
+        let rec = |x: (Result<crate::sut::Compiled, String>, i128, i128)| match x.0 {
+            Ok(c) => format!("{}|{}", normalise_clock(&c.text, x.1, x.2), io_map_sorted(&c.io_map)),
+            Err(m) => format!("Err({})", m),
+        };
+        let (ra, rb) = (rec(a), rec(b));
+        if ra != rb {
+            rep.violation(
+                "C15:equal-trees-different-programs",
+                &format!("two trees the library's == calls equal compile to different results: {:?} vs {:?}", e, e2),
+                &case,
+                J::obj(vec![("first_tree", J::s(format!("{:?}", e))), ("second_tree", J::s(format!("{:?}", e2))), ("first", J::s(&ra)), ("second", J::s(&rb))]),
+            );
+        } else {
+            rep.count("equal_pairs_with_identical_results");
+        }
+    });
     // call-history independence: on ONE thread (thread-local or static state accumulates there) the same
     // mixed corpus - valid, invalid, boundary inputs and hand-built trees - is recorded in order, then a
     // second time in reverse order after everything else has run. A result that depends on what was parsed
@@ -270,6 +382,7 @@ pub fn run(ctx: &Ctx, rep: &mut Report) {
         }
     }
     if ctx.only.is_none() {
+        rep.floor("equal tree pairs compiled and compared", rep.get("equal_pairs_with_identical_results") > 50 && rep.get("pairs_not_equal") > 50);
         rep.floor("call-history stream compared records", rep.get("order_records_compared") > 500);
         rep.floor("late-render windows observed", rep.get("late_render_windows_checked") >= 3);
         rep.floor("clock windows observed", rep.get("clock_windows_checked") > 50);
